@@ -301,7 +301,7 @@ func c12Frames(r *rand.Rand, i int, cat []c11Class) []c12Frame {
 
 func TestVerif_C12(t *testing.T) {
 	rep := vk.NewReport(t, "C12", "exploration")
-	rep.Rule = "real WebSocket connections (coder/websocket client against httptest + NewRelay(recordingHandler)); per connection a pipelined seeded sequence of 20-200 frames: valid messages of all five types (whitespace/escape styles), genuine hostile-content events, every catalogue corruption class of C11, non-messages, invalid UTF-8, binary frames, properly signed events with an invalid field (kind out of range, upper-case hex), unsigned / altered-after-admission / wrong-canonicalisation / unparsable-key events; the recording handler answers each admitted message with 0-2 marked server messages of all seven types carrying hostile strings; oracle: handler log = the valid authentic frames, once each, in order and equal to what the frames denote; #rejections at the client = #other frames (NOTICE or rejecting OK/CLOSED naming the offender); after the last frame a sentinel REQ still reaches the handler; every handler emission arrives as one text frame that decodes to the emitted value, in order; non-trivial = a connection with at least one rejected and one admitted frame; distinct = distinct frame-class sequences"
+	rep.Rule = "real WebSocket connections (coder/websocket client against httptest + NewRelay(recordingHandler)); per connection a pipelined seeded sequence of 20-200 frames: valid messages of all five types (whitespace/escape styles), genuine hostile-content events, every catalogue corruption class of C11, non-messages, invalid UTF-8, binary frames, properly signed events with an invalid field (kind out of range, upper-case hex), unsigned / altered-after-admission / wrong-canonicalisation / unparsable-key events; the recording handler answers each admitted message with 0-2 marked server messages of all seven types carrying hostile strings; oracle: handler log = the valid authentic frames, once each, in order and equal to what the frames denote; #rejections at the client = #other frames (NOTICE or rejecting OK/CLOSED naming the offender); after the last frame a sentinel REQ still reaches the handler; every handler emission arrives as one text frame that decodes to the emitted value, in order; added later: valid messages padded with a character that is white space to Unicode but not to JSON; 3-4 connections per CPU publishing 25 genuine events each at the same time on one relay; 1-6 valid frames followed at once by a normal close against a handler that needs 1-12 ms per message (the handler's log must be a prefix of what was sent); non-trivial = a connection with at least one rejected and one admitted frame; distinct = distinct frame-class sequences"
 	defer rep.Finish()
 	cat := c11Catalogue()
 	nConn := vk.N(400, 6000)
